@@ -159,6 +159,19 @@ class Mutator:
         return None
 
     def m_swap_pin_order(self):
+        """Exchange two pins of one port (same width): every connection to either bit now touches the other bit."""
+        c = [(d, p) for d, p in self._ports() if len(p.pins) > 1 and all(self.hd(x) for x in p.pins)]
+        self.r.shuffle(c)
+        for d, p in c[:8]:
+            pins = list(p.pins)
+
+            def used(ip):
+                return ip.wire is not None or any(i.pins[ip].wire is not None for i in d.references if ip in i.pins)
+            for a in range(len(pins)):
+                for b in range(a + 1, len(pins)):
+                    if used(pins[a]) != used(pins[b]) or (used(pins[a]) and self.r.random() < 0.5):
+                        pins[a], pins[b] = pins[b], pins[a]
+                        return [{"op": "set_pins", "on": self.hd(p), "xs": [self.hd(x) for x in pins]}]
         return None
 
     # -- instances --------------------------------------------------------------------------
